@@ -229,7 +229,7 @@ def run_spec(tr, dev0, slot_of_vol, checks=("read", "state")):
                             else:
                                 if files1[hv]["mtime"] != clock_ts(clk1 - 1):
                                     problems.append("op %d: after a successful write the file's modification time is %s, the clock value of this write is %s" % (k, files1[hv]["mtime"], clock_ts(clk1 - 1)))
-                                sp.wstamp[f["path"]] = clock_ts(clk1 - 1)
+                                sp.wstamp[f["path"]] = (clock_ts(clk1 - 1), k)
                         else:
                             sp.wstamp.pop(f["path"], None)
                     elif n or not okk:
